@@ -43,7 +43,7 @@ set_option hygiene false in
 macro "whs" : tactic => `(tactic| (
   have wh_call := hH.call; have wh_attr := hH.attr; have wh_setattr := hH.setattr; have wh_index := hH.index
   have wh_contains := hH.contains; have wh_glob := hH.glob; have wh_eq := hH.eqHost
-  have wh_mkw := hH.mcall_kw; have wh_mdict := hH.mcall_dict; have wh_mfl := hH.mcall_flags; have wh_mint := hH.mcall_int; have wh_mcfg := hH.mcall_cfgval))
+  have wh_mkw := hH.mcall_kw; have wh_mdict := hH.mcall_dict; have wh_mfl := hH.mcall_flags; have wh_mint := hH.mcall_int))
 
 /-- the type-string constants the host stands in for are the working tree's -/
 example : (globLookup Ubx.Gen.Code.globals 0x5831 : Option (V AO)) = some (.str 0x58303031) := rfl
@@ -194,7 +194,7 @@ theorem calc_num_repeats_eq (hH : WalkLike c cls id mode H) (F : Nat) (items : L
   pystep
   pystep
   rw [execB_cons, execS_for]
-  pysimp [wh_mkw, wh_mdict, wh_mcfg, aMcall, builtinMethod]
+  pysimp [wh_mkw, wh_mdict, aMcall, builtinMethod]
   have hl := cnr_loop c cls id mode H hH F items 0
     [(0x73656c66, .host .self), (0x61747464, .host (.dict items)), (0x7061796c6f6164, .bytes payload), (0x6f6666736574, .int off),
      (0x6f6666736574656e64, .int 0), (0x6c656e7061796c6f6164, .int ((payload.length : Int) - off - 0)), (0x6c656e67726f7570, .int 0)] st (by pysimp)
@@ -555,7 +555,7 @@ theorem grp_outer_body (hH : WalkLike c cls id mode H) (F : Nat) (its : List Ite
   have hne : (List.map (fun (i : Nat) => (V.int (i : Int) : V AO)) idx ++ [jv]).isEmpty = false := by simp
   have hidx' : (V.tuple (List.map (fun (i : Nat) => (V.int (i : Int) : V AO)) idx ++ [V.int ((a : Int) + 1)]) : V AO) = idxT (idx ++ [a + 1]) := by
     simp [idxT]
-  pystep [gIdx, List.dropLast_concat, hne, Bool.false_eq_true, gD, wh_mkw, wh_mdict, wh_mcfg, aMcall, hidx']
+  pystep [gIdx, List.dropLast_concat, hne, Bool.false_eq_true, gD, wh_mkw, wh_mdict, aMcall, hidx']
   have hl := grp_inner_loop c cls id mode H hH F its (idx ++ [a + 1]) its (hks a) off
     (setVar (setVar vars 0x69 (.int a)) 0x696e646578 (idxT (idx ++ [a + 1]))) st
     (by rw [fr _ _ _ _ (by decide), fr _ _ _ _ (by decide)]; exact gSelf)
@@ -885,6 +885,13 @@ theorem grp_count (hH : WalkLike c cls id mode H) (F : Nat) (cnt : Count) (its :
           simp only [GsizPost]
           exact Or.inr ⟨_, rfl, by simpa [excName] using hr⟩
 
+/-- `self._set_attribute_cfgval(offset, **kwargs)` behaves as `wCfgVal` -/
+def CfgOK (c : WCtx) (H : Host AO ASt) : Prop :=
+  ∀ (off : Nat) (st : ASt),
+    (match wCfgVal c ⟨off, st.payload, st.env⟩ with
+     | .ok s => H.mcall (.host .self) 0x5f7365745f6174747269627574655f63666776616c [.int off, .host .kwargs] [] st = (.ok .none, ⟨s.payload, s.env⟩)
+     | .error e => (H.mcall (.host .self) 0x5f7365745f6174747269627574655f63666776616c [.int off, .host .kwargs] [] st).1 = .error (.exc (excName e) 0))
+
 theorem grp_tail (hH : WalkLike c cls id mode H) (F : Nat) (idx : List Nat) (jv : V AO) (o : Int) (vars : List (Name × V AO)) (st : ASt)
     (gOff : getVar vars 0x6f6666736574 = some (.int o))
     (gIdx : getVar vars 0x696e646578 = some (.tuple (idx.map (fun (i : Nat) => (V.int (i : Int) : V AO)) ++ [jv]))) :
@@ -896,7 +903,7 @@ theorem grp_tail (hH : WalkLike c cls id mode H) (F : Nat) (idx : List Nat) (jv 
   pysimp [gOff, idxT]
 
 theorem set_attribute_group_eq (hH : WalkLike c cls id mode H) (F : Nat) (cnt : Count) (its : List Item) (idx : List Nat)
-    (hks : ItemsOK c H idx its) (hcalc : CalcOK H its)
+    (hks : ItemsOK c H idx its) (hcalc : CalcOK H its) (hcfgv : CfgOK c H)
     (hnamed : ∀ a, cnt = .named a → a ≠ sNone) (hcfg : c.cfgval = cfgvalB cls id mode) (hesf : c.esfmeas = esfB cls id mode)
     (off : Nat) (st : ASt)
     (hnat : c.esfmeas = true → ∀ a, cnt = .named a →
@@ -921,15 +928,23 @@ theorem set_attribute_group_eq (hH : WalkLike c cls id mode H) (F : Nat) (cnt : 
   rcases Bool.eq_false_or_eq_true (cfgvalB cls id mode) with hb | hb
   · simp only [hb, ↓reduceIte]
     simp only [grpThen, grpIf, fn_UBXMessage__set_attribute_group]
-    pysimp [wh_mkw, wh_mdict, wh_mcfg, aMcall, Int.natCast_nonneg, Int.toNat_natCast]
-    simp only [wCfgVal]
-    cases c.hasPayload
-    · simp [excName]
-    · simp only [Bool.not_true, Bool.false_eq_true, ↓reduceIte]
-      cases cfgLoop c st.payload (st.payload.length - off) (st.payload.length - off + 1) off st.env with
-      | error e => simp
+    have hc := hcfgv off st
+    simp only [wCfgVal] at hc ⊢
+    cases hpl : c.hasPayload
+    · rw [hpl] at hc
+      simp only [Bool.not_false, ↓reduceIte] at hc ⊢
+      pysimp [hc]
+    · rw [hpl] at hc
+      simp only [Bool.not_true, Bool.false_eq_true, ↓reduceIte] at hc ⊢
+      cases hcl : cfgLoop c st.payload (st.payload.length - off) (st.payload.length - off + 1) off st.env with
+      | error e =>
+        rw [hcl] at hc
+        simp only at hc ⊢
+        pysimp [hc]
       | ok env' =>
-        simp only
+        rw [hcl] at hc
+        simp only at hc ⊢
+        pysimp [hc]
         have := grp_tail c cls id mode H hH F idx (.int 0) off
           [(1936026726, V.host AO.self), (1633969510, V.tuple [cntV cnt, V.host (AO.dict its)]),
               (122485596185972, V.int ↑off), (452823639416, V.tuple (List.map (fun (i : Nat) => (V.int (i : Int) : V AO)) idx ++ [V.int 0])),
@@ -1216,7 +1231,7 @@ theorem sg_stage5 (hH : WalkLike c cls id mode H) (F : Nat) (n : Name) (idx : Li
     rw [execS_if]
     pysimp [gKw, wh_contains, aContains, hp, Bool.false_eq_true]
     rw [execB_cons]
-    pysimp [gKw, gN, gD, wh_call, aCall, wh_mkw, wh_mdict, wh_mcfg, aMcall, anameOfA_nameVA, builtinMethod]
+    pysimp [gKw, gN, gD, wh_call, aCall, wh_mkw, wh_mdict, aMcall, anameOfA_nameVA, builtinMethod]
     cases nomval ty with
     | error e => simp [SgPost5, encR]
     | ok nv =>
